@@ -612,6 +612,10 @@ func (w *World) Canon(s string) string {
 	if w.Dir != "" {
 		s = strings.ReplaceAll(s, w.Dir, "$ROOT")
 	}
+	if w.Outer != "" {
+		// a root configured in another spelling (outer//root, outer/./root) does not contain w.Dir literally
+		s = strings.ReplaceAll(s, w.Outer, "$OUTER")
+	}
 	for _, slot := range SortedKeys(w.Slots) {
 		if id := w.Slots[slot]; id != "" {
 			s = strings.ReplaceAll(s, id, "$"+slot)
